@@ -1,0 +1,41 @@
+//go:build verif
+
+package pathpattern
+
+// Contracts for the pattern tree of the legacy router (C09). Comment-only; read by /verif/engine
+// (govc).
+//
+// accepts(n, r): the tree below n has a value for the text r - some chain of suffixes consumes r
+// and ends in a node that holds a value. The definition is declarative (an existential over the
+// suffixes, one level unfolded per function, recursion by contract): a matcher that stops at the
+// first suffix whose constant is a prefix, without trying the others, does not satisfy it.
+//@ spec accepts(n *Node, r string) bool
+//@ spec wfTree(n *Node) bool
+//@ spec segEnd(r string) int := indexOf(r, "/") < 0 ? len(r) : indexOf(r, "/")
+//@ spec suffixAccepts(n *Node, k int, r string) bool :=
+//@     n.Suffixes[k].Kind == SuffixKindConstant ? ((hasPrefix(r, n.Suffixes[k].Pattern) && accepts(n.Suffixes[k].Node, substr(r, len(n.Suffixes[k].Pattern), len(r) - len(n.Suffixes[k].Pattern)))) || (!hasPrefix(r, n.Suffixes[k].Pattern) && r == "" && n.Suffixes[k].Pattern == "/" && accepts(n.Suffixes[k].Node, r)))
+//@   : n.Suffixes[k].Kind == SuffixKindVariable ? accepts(n.Suffixes[k].Node, substr(r, segEnd(r), len(r) - segEnd(r)))
+//@   : n.Suffixes[k].Kind == SuffixKindEverything ? n.Suffixes[k].Node.Value != nil
+//@   : n.Suffixes[k].Kind == SuffixKindRegExp ? (goMatches(goSource(n.Suffixes[k].regExp), substr(r, 0, segEnd(r))) && accepts(n.Suffixes[k].Node, substr(r, segEnd(r), len(r) - segEnd(r))))
+//@   : false
+// The two recursive predicates are unfolded one level at the function's own arguments (definitional:
+// listed as scope of the proof; the callee's contract supplies the next level).
+//@ spec acceptsHere(n *Node, r string) bool := (r == "" && n.Value != nil) || (exists k int :: 0 <= k && k < len(n.Suffixes) && suffixAccepts(n, k, r))
+//@ spec wfHere(n *Node) bool := forall k int :: 0 <= k && k < len(n.Suffixes) ==> n.Suffixes[k].Node != nil && wfTree(n.Suffixes[k].Node) && (n.Suffixes[k].Kind == SuffixKindRegExp ==> n.Suffixes[k].regExp != nil)
+// Claimed today: no panic in the recursive matcher on a well-formed tree (C10). The functional clause
+// (the matcher finds a node exactly for the accepted texts - which is what makes backtracking over
+// constant suffixes necessary) is written below but NOT claimed: its loop invariant and the two
+// verdict clauses are not decided by the solvers (the instantiation of the unfolded definition at the
+// loop index is not found), so they carry the tag C09-attempted.
+//@ func (*Node).matchRemaining
+//@   requires currentNode != nil && wfTree(currentNode)
+//@   assuming accepts(currentNode, remaining) ==> acceptsHere(currentNode, remaining)
+//@   assuming remaining == "" && currentNode.Value != nil ==> accepts(currentNode, remaining)
+//@   assuming forall k int :: 0 <= k && k < len(currentNode.Suffixes) && suffixAccepts(currentNode, k, remaining) ==> accepts(currentNode, remaining)
+//@   assuming wfTree(currentNode) ==> wfHere(currentNode)
+//@   modifies nothing
+//@   loop 0 invariant @C09-attempted forall j int :: 0 <= j && j < #i ==> !suffixAccepts(currentNode, j, remaining)
+//@   ensures @C09-attempted [found-node-holds-a-value] result.0 != nil ==> result.0.Value != nil
+//@   ensures @C09-attempted [matches-exactly-the-accepted-texts] (result.0 != nil) <==> accepts(currentNode, remaining)
+//@   option safety-tags C10
+//@   tag C10
